@@ -45,7 +45,11 @@ func c03Helper(t *testing.T, run *h.Run, maxN int) bool {
 	}
 	for n := 1; n <= maxN; n++ {
 		if n <= 6 {
-			forEachSeq(n, c03Classes, func(seq []int) { jobs <- append([]int{}, seq...) })
+			base := c03Classes
+			if n >= 5 {
+				base = c03Classes - 1 // the last class (up to date, terminating) only up to 4 nodes
+			}
+			forEachSeq(n, base, func(seq []int) { jobs <- append([]int{}, seq...) })
 			continue
 		}
 		// 7 nodes: the five classes that enter the budget arithmetic differently (no pod, up-to-date available,
